@@ -477,6 +477,8 @@ def run_case(p):
     """returns None if the real engine agrees with the reference, else a description of the disagreement."""
     if p.get('kind') == 'predform':
         return run_predform_case(p)
+    if p.get('kind') == 'lazy':
+        return run_lazy_case(p)
     if p.get('kind') == 'reuse':
         return run_reuse_case(p)
     if p.get('kind') == 'domain_subquery':
@@ -584,3 +586,51 @@ def rerun(prop, inp):
 def standin(name, seed, args):
     import standins
     return standins.run(name, seed, args)
+
+
+def run_lazy_case(p):
+    """C07: a single-variable query over a one-shot iterator: the k-th result is delivered after pulling exactly the
+    prefix that ends at the k-th qualifying element; nothing is ever pulled twice, whatever partial / full evaluations follow"""
+    from entity_query_language import symbolic_mode, let, an, entity
+    O.reset_registry()
+    (O.enable_caching if p.get('caching', True) else O.disable_caching)()
+    rng = random.Random(p['seed'])
+    dom = O.make_domain(rng, 5)
+    cond = O.gen_cond(rng, 1, p.get('depth', 2), vocab=('cmp', 'name', 'truth'), neg=True, nested_neg=True)
+    pulled = []
+
+    def source():
+        for i, o in enumerate(dom):
+            pulled.append(i)
+            yield o
+    try:
+        with symbolic_mode():
+            x = let(type_=O.Item, domain=source())
+            q = an(entity(x, O.build(cond, [x])))
+        it = q.evaluate()
+        if pulled:
+            return {'what': 'evaluate() pulled from the domain before the first result was requested', 'pulled': list(pulled)}
+        qualifying = [i for i, o in enumerate(dom) if O.holds(cond, {0: o})]
+        k_stop = rng.randrange(0, len(qualifying) + 1)
+        for k in range(k_stop):
+            r = next(it)
+            if r is not dom[qualifying[k]]:
+                return {'what': 'wrong k-th result', 'k': k, 'condition': repr(cond)}
+            if pulled != list(range(qualifying[k] + 1)):
+                return {'what': 'k-th result delivered after pulling something else than the prefix ending at the k-th '
+                                'qualifying element', 'k': k, 'pulled': list(pulled), 'qualifying': qualifying,
+                        'condition': repr(cond), 'domain': repr(dom)}
+        it.close()
+        for _ in range(rng.randrange(1, 3)):
+            got = list(q.evaluate())
+            want = [dom[i] for i in qualifying]
+            if not O.same_list_by_identity(got, want):
+                return {'what': 'later full evaluation differs', 'got': repr(got), 'want': repr(want), 'condition': repr(cond),
+                        'signature_kind': 'result-after-partial-evaluation'}
+        if sorted(pulled) != sorted(set(pulled)) or len(pulled) > len(dom):
+            return {'what': 'an element of the iterator was pulled twice', 'pulled': list(pulled)}
+    except Exception as e:  # noqa
+        return {'exception': repr(e), 'trace': traceback.format_exc(limit=4)}
+    finally:
+        O.enable_caching()
+    return None
